@@ -538,7 +538,8 @@ pub fn gen_clip_vertex(rng: &mut Rng, allow_outside: bool) -> [f32; 4] {
 pub fn header(rng: &mut Rng, door: char, tgt: &str, flags: &str, k: usize) -> (String, u32, u32) {
     // mostly small buffers; one in eight is wide (long scanlines) and low
     let wide = rng.chance(1, 8);
-    let w = if wide { 40 + rng.below(40) as u32 } else { 2 + rng.below(14) as u32 };
+    // (a tenth of the wide ones are 100..180 px: scanlines well beyond 64 / 128 px — block-wise span loops)
+    let w = if wide { if rng.chance(1, 10) { 100 + rng.below(81) as u32 } else { 40 + rng.below(40) as u32 } } else { 2 + rng.below(14) as u32 };
     let h = if wide { 2 + rng.below(4) as u32 } else { 2 + rng.below(14) as u32 };
     let (l, t, r, b) = if rng.chance(1, 2) {
         (0, 0, w, h)
